@@ -192,9 +192,21 @@ def shard(arg):
     return rec
 
 
+def scripted(arg):
+    """tie-heavy recipes kept from earlier runs (several identities with equal sort keys that later receive signatures)"""
+    import json
+    import os
+    rec = harness.Rec()
+    for c in json.load(open(os.path.join(os.path.dirname(os.path.dirname(os.path.abspath(__file__))), 'data', 'c14_scripted.json'))):
+        evaluate(c, rec)
+        for mode in ('api', 'ref'):
+            evaluate(dict(c, mode=mode, secret=not c['secret']), rec)
+    return rec
+
+
 def run(tier, seed):
     n, bsec = (60, 80) if tier == 'quick' else (800, 1200)
-    return harness.pmap('vpgpy.props.c14', 'dispatch', [('shard', (seed, i, n, bsec)) for i in range(16 if tier == 'quick' else 32)])
+    return harness.pmap('vpgpy.props.c14', 'dispatch', [('scripted', None)] + [('shard', (seed, i, n, bsec)) for i in range(15 if tier == 'quick' else 32)])
 
 
 def dispatch(task):
